@@ -202,7 +202,8 @@ def run(ctx):
             if ex["k"] == "Binary" and ex["op"] in ("/", "Div"):
                 l, r = strip(ex["l"]), strip(ex["r"])
                 one = l["k"] == "Lit" and float(l["lit"]["v"]) == 1.0
-                cast = r["k"] == "Cast" and field_path(r["e"]) == ("n",) and any(t in (r.get("ty") or "") for t in ("f64", "f32"))
+                rt_p = [q["name"] for q in rt[0]["params"] if q.get("k") == "Binding" and q["name"] != "self"]       # root(self, n): n by position
+                cast = r["k"] == "Cast" and len(rt_p) == 1 and field_path(r["e"]) == (rt_p[0],) and any(t in (r.get("ty") or "") for t in ("f64", "f32"))
                 ex_ok = one and cast
                 if not cast:
                     why = "the exponent's denominator is not `n as <float>` (found %s of type %s)" % (r["k"], r.get("ty"))
